@@ -162,6 +162,82 @@ theorem use_after_put_witness :
     ((runSched (init afterPutWitnessProgs) afterPutWitnessSched).thr 1).log = [[0, 0]] ∧
     soloLog (afterPutWitnessProgs 1) = [[9, 9]] := by decide +kernel
 
+/-! ### the reader `readHeader` pushes back: nobody reads the header buffer after its Put -/
+
+/-- the regenerated fact: the bytes read past the header are pushed back as a fresh array filled
+by `copy` — the reader that outlives `readHeader` and `Decrypt` keeps no slice of the pooled buffer -/
+theorem surplus_is_copy : Kit.Generated.C08.surplusRet = .copy := by decide
+
+/-- **Decrypt including the goroutine's read of the pushed-back bytes keeps the discipline**, for
+every buffer size, every document, every chunking, every body — with the `readHeader` the source
+has now (`headerRet`, `surplusRet` regenerated). -/
+theorem enc_surplus_wf (B : Nat) (reads : List (List Byte)) (body plain : List Byte) :
+    wf (decryptProgS Kit.Generated.C08.surplusRet Kit.Generated.C08.headerRet B 0 reads body) = true ∧
+    wf (encryptProg 0 plain ++ decryptProgS Kit.Generated.C08.surplusRet Kit.Generated.C08.headerRet B 1 reads body) = true := by
+  rw [header_results_are_copies, surplus_is_copy]
+  exact ⟨decryptS_fixed_wf B reads body, pipelineS_fixed_wf B reads body plain⟩
+
+/-- **No reader of the header buffer is alive after its Put**: in `Decrypt` (goroutine included),
+whatever follows a `put h` — the Put of `readHeader`'s buffer in particular — does not go through
+`h` any more; the pushed-back reader reads from an array of its own. -/
+theorem no_reader_after_put (B : Nat) (reads : List (List Byte)) (body : List Byte) (pre rest : List Instr) (h : Nat)
+    (hp : decryptProgS Kit.Generated.C08.surplusRet Kit.Generated.C08.headerRet B 0 reads body = pre ++ .put h :: rest) :
+    ∀ i ∈ rest, h ∉ i.handles :=
+  nothing_after_put (enc_surplus_wf B reads body []).1 hp
+
+/-- **Any number of streams, opened and drained in any order** (any interleaving of the threads,
+any pool behaviour — "all opened first, read later" is one of them): all accesses are owned and
+every finished stream has observed exactly what it observes alone, the pushed-back bytes included. -/
+theorem enc_open_streams_independent (docs : Nat → Option (List (List Byte) × List Byte)) {s : State}
+    (h : Reach (fun t => match docs t with
+      | some (reads, body) => decryptProgS Kit.Generated.C08.surplusRet Kit.Generated.C08.headerRet segmentSize 0 reads body
+      | none => []) s) :
+    (∀ t, accessOk s t = true) ∧
+    (∀ t, (s.thr t).prog = [] → (s.thr t).log = soloLog (match docs t with
+      | some (reads, body) => decryptProgS Kit.Generated.C08.surplusRet Kit.Generated.C08.headerRet segmentSize 0 reads body
+      | none => [])) := by
+  have hwf : ∀ t, wf ((fun t => match docs t with
+      | some (reads, body) => decryptProgS Kit.Generated.C08.surplusRet Kit.Generated.C08.headerRet segmentSize 0 reads body
+      | none => []) t) = true := by
+    intro t
+    simp only
+    cases docs t with
+    | none => rfl
+    | some p => obtain ⟨reads, body⟩ := p; exact (enc_surplus_wf segmentSize reads body []).1
+  exact ⟨(ownership_inv _ hwf h).1, fun t hf => pipelines_independent_final _ hwf h t hf⟩
+
+/-- non-vacuity: two real documents with bytes behind the header, both opened before either is
+read, the second stream handed the first one's header buffer, drained in either order: reachable,
+finished, 7 arrays (the header buffer shared), logs = solo; and the executable schedule of the
+driver (`openAllThenDrain`) only produces reachable states -/
+example : (∀ ord ∈ [[0, 1], [1, 0]],
+      let s := openAllThenDrain .copy retFixed [(0, docA), (0, docB)] ord
+      s.nArr = 7 ∧ (s.thr 0).prog = [] ∧ (s.thr 1).prog = [] ∧
+      (s.thr 0).log = soloLog (progOfS .copy retFixed 0 docA) ∧ (s.thr 1).log = soloLog (progOfS .copy retFixed 0 docB)) ∧
+    (progOfS .copy retFixed 0 docA).length = 43 ∧ openLen retFixed 0 docA = 36 := by decide +kernel
+
+/-- **Witness for a pushed-back reader over the pooled buffer** (`bytes.NewReader(buf[lastNewline:n])`
+instead of the copy — with the Put in `readHeader` or deferred to the return of `Decrypt`, the
+goroutine's first read comes after it either way): the discipline is broken (`wf` fails); open
+stream 0 (`…{}\nM\n` + `[1,2]`), open stream 1 (`…[]\nN\n` + `[9]`) — the pool hands it stream 0's
+header buffer, it reads its document into it —, then drain stream 0: its goroutine reads `[9,2]`
+where alone it reads `[1,2]` — stream 1's byte inside stream 0's first segment. Stream 1 itself is
+unaffected. If stream 0's goroutine is handed a fresh buffer instead, the array it reads the
+surplus from is at that moment IN THE POOL (`accessOk` fails). -/
+theorem surplus_alias_witness :
+    wf (progOfS .alias retFixed 0 docA) = false ∧ wf (progOfS .copy retFixed 0 docA) = true ∧
+    (let s := openAllThenDrain .alias retFixed [(0, docA), (0, docB)] [0, 1]
+     (s.thr 0).prog = [] ∧ (s.thr 1).prog = [] ∧
+     (s.thr 0).log ≠ soloLog (progOfS .alias retFixed 0 docA) ∧
+     (s.thr 0).log.reverse.take 3 = [[], [1, 2], [9, 2]] ∧
+     (soloLog (progOfS .alias retFixed 0 docA)).reverse.take 3 = [[], [1, 2], [1, 2]] ∧
+     (s.thr 1).log = soloLog (progOfS .alias retFixed 0 docB)) ∧
+    (let s0 := init (openProgs .alias retFixed [(0, docA), (0, docB)])
+     let s1 := runLifo (runLifo s0 0 (openLen retFixed 0 docA)) 1 (openLen retFixed 0 docB)
+     let s := runSched s1 [(0, none)]
+     (s.thr 0).prog.head? = some (.use ⟨0, 20, 2⟩) ∧ s.own ((s.thr 0).tbl 0) = .pooled ∧ accessOk s 0 = false) := by
+  decide +kernel
+
 /-! ### non-vacuity and the witness for the code as found -/
 
 /-- the hypotheses of the positive theorems are satisfiable by real pipelines that really share a
